@@ -1,37 +1,210 @@
-import Tahoe.Spans.Model
-/-! C37 — byte-range bookkeeping is exact (property theorems; helper lemmas live elsewhere). -/
+import Tahoe.Spans.Lemmas
+import Tahoe.Spans.DataLemmas
+/-! C37 — byte-range bookkeeping is exact (property theorems; helper lemmas live in
+`Tahoe/Spans/Lemmas.lean` and `Tahoe/Spans/DataLemmas.lean`).
+
+Part 1: `Spans` behaves like a set of integers.  `WF` is the class invariant checked by `_check`
+(sorted, positive lengths, a gap between consecutive spans); `mem s x` is "x is in the set". -/
 namespace Tahoe.C37
 open Tahoe.Spans
 
+/-! ### Spans.remove -/
+
 /-- removing `[a, a+l)` from one span removes exactly those points -/
 theorem mem_removeOne (sp : Span) (a l x : Nat) :
-    mem (removeOne sp a l) x = (mem [sp] x && !(a ≤ x && x < a + l)) := by
-  obtain ⟨s, n⟩ := sp
-  simp only [removeOne, overlap, mem]
-  split
-  · rename_i h; split at h <;> simp_all <;> grind
-  · rename_i os ol h
-    split at h
-    · simp at h; obtain ⟨h1, h2⟩ := h; subst h1 h2
-      split
-      · simp_all; grind
-      · split
-        · simp_all; grind
-        · split
-          · simp_all; grind
-          · simp_all; grind
-    · simp at h
+    mem (removeOne sp a l) x = (mem [sp] x && !(a ≤ x && x < a + l)) :=
+  Tahoe.Spans.mem_removeOne sp a l x
 
 /-- `remove` acts pointwise like set difference, for every span list (no invariant needed) -/
 theorem mem_remove (s : List Span) (a l x : Nat) :
-    mem (remove s a l) x = (mem s x && !(a ≤ x && x < a + l)) := by
-  induction s with
-  | nil => simp [remove, mem]
-  | cons sp rest ih =>
-    have h1 := mem_removeOne sp a l x
-    simp only [remove, mem, List.flatMap_cons, List.any_append, List.any_cons] at *
-    rw [ih, h1]; simp; grind
+    mem (remove s a l) x = (mem s x && !(a ≤ x && x < a + l)) :=
+  Tahoe.Spans.mem_remove s a l x
 
 example : mem (remove [(0, 10)] 3 4) 5 = false ∧ mem (remove [(0, 10)] 3 4) 7 = true := by decide
+
+/-- `remove` preserves the class invariant -/
+theorem wf_remove (s : List Span) (a l : Nat) (h : WF s) : WF (remove s a l) :=
+  chain_wf (remove_chain ((wf_iff_chain s).1 h))
+
+example : WF [(0, 4), (6, 4), (12, 4)] ∧ remove [(0, 4), (6, 4), (12, 4)] 2 11 = [(0, 2), (13, 3)] :=
+  ⟨by simp [WF], by decide⟩
+
+/-! ### Spans.add -/
+
+/-- `add` preserves the class invariant (the code asserts `length > 0`) -/
+theorem wf_add (s : List Span) (a l : Nat) (h : WF s) (hl : 0 < l) : WF (add s a l) :=
+  chain_wf (add_chain (a := a) hl ((wf_iff_chain s).1 h))
+
+/-- `add` acts pointwise like set union with `[a, a+l)` -/
+theorem mem_add (s : List Span) (a l x : Nat) (h : WF s) :
+    mem (add s a l) x = (mem s x || (a ≤ x && x < a + l)) :=
+  add_mem x ((wf_iff_chain s).1 h)
+
+example : WF [(0, 4), (6, 4), (12, 4)] ∧ add [(0, 4), (6, 4), (12, 4)] 4 2 = [(0, 10), (12, 4)] ∧
+    add [(0, 4), (6, 4), (12, 4)] 11 1 = [(0, 4), (6, 4), (11, 5)] :=
+  ⟨by simp [WF], by decide, by decide⟩
+
+/-! ### `(start, length) in spans` and `len()` -/
+
+/-- `__contains__` answers true exactly when every point of the (non-empty) range is a member -/
+theorem containsRange_iff_forall_mem (s : List Span) (a l : Nat) (h : WF s) (hl : 0 < l) :
+    containsRange s a l = true ↔ ∀ x, a ≤ x → x < a + l → mem s x = true :=
+  containsRange_iff hl ((wf_iff_chain s).1 h)
+
+example : containsRange [(0, 4), (5, 4)] 5 4 = true ∧ containsRange [(0, 4), (5, 4)] 3 2 = false := by decide
+
+/-- `len()` is the number of members (counted below any bound `N` that is beyond every span) -/
+theorem len_eq_card (s : List Span) (N : Nat) (h : WF s) (hN : ∀ sp ∈ s, sp.1 + sp.2 ≤ N) :
+    len s = ((List.range N).filter (mem s)).length := by
+  rw [← List.countP_eq_length_filter]
+  exact len_eq_count ((wf_iff_chain s).1 h) hN
+
+/-- nothing is a member at or beyond such a bound, so the count above is the size of the whole set -/
+theorem mem_lt_bound (s : List Span) (N x : Nat) (hN : ∀ sp ∈ s, sp.1 + sp.2 ≤ N) (hx : mem s x = true) :
+    x < N := by
+  simp only [mem, List.any_eq_true, Bool.and_eq_true, decide_eq_true_eq] at hx
+  obtain ⟨sp, hsp, _, h2⟩ := hx
+  have := hN sp hsp; omega
+
+example : len [(0, 4), (6, 4)] = ((List.range 10).filter (mem [(0, 4), (6, 4)])).length := by decide
+
+/-! ### `self & other` -/
+
+/-- `__and__` (`self - (bounds - other)`, bounds built with the *end* passed as length) is pointwise `&&`.
+Only the invariant of `self` is needed. -/
+theorem mem_inter (s o : List Span) (x : Nat) (h : WF s) :
+    mem (inter s o) x = (mem s x && mem o x) :=
+  inter_mem o x ((wf_iff_chain s).1 h)
+
+/-- `__and__` preserves the class invariant -/
+theorem wf_inter (s o : List Span) (h : WF s) : WF (inter s o) :=
+  chain_wf (inter_chain o ((wf_iff_chain s).1 h))
+
+example : WF [(2, 6), (10, 3)] ∧ inter [(2, 6), (10, 3)] [(0, 4), (7, 4)] = [(2, 2), (7, 1), (10, 1)] :=
+  ⟨by simp [WF], by decide⟩
+
+/-! ### `+`, `-` (and `+=`, `-=`): fold of add / remove over the spans of `other` -/
+
+/-- `self + other` is pointwise `||` and keeps the invariant -/
+theorem mem_addAll (s o : List Span) (x : Nat) (h : WF s) (ho : WF o) :
+    WF (addAll s o) ∧ mem (addAll s o) x = (mem s x || mem o x) := by
+  have hpos := chain_pos ((wf_iff_chain o).1 ho)
+  obtain ⟨h1, h2⟩ := Tahoe.Spans.mem_addAll s o x ((wf_iff_chain s).1 h) hpos
+  exact ⟨chain_wf h1, by rw [h2]; rfl⟩
+
+/-- `self - other` is pointwise "and not" and keeps the invariant -/
+theorem mem_removeAll (s o : List Span) (x : Nat) (h : WF s) :
+    WF (removeAll s o) ∧ mem (removeAll s o) x = (mem s x && !mem o x) :=
+  ⟨chain_wf (removeAll_chain o ((wf_iff_chain s).1 h)), Tahoe.Spans.mem_removeAll s o x⟩
+
+example : addAll [(0, 2)] [(2, 2), (10, 1)] = [(0, 4), (10, 1)] ∧
+    removeAll [(0, 12)] [(2, 2), (10, 1)] = [(0, 2), (4, 6), (11, 1)] := by decide
+
+/-! ### histories -/
+
+/-- Any history of `add` / `remove` / `&` with valid arguments, from the empty set: the invariant
+holds at the end and membership is the fold of the set semantics (`opSem`) over the history. -/
+theorem spans_history (ops : List Op) (hv : ∀ op ∈ ops, op.valid) :
+    WF (run [] ops) ∧ ∀ x, mem (run [] ops) x = ops.foldl opSem (fun _ => false) x := by
+  obtain ⟨h1, h2⟩ := run_spec (s := []) ops hv trivial
+  refine ⟨chain_wf h1, fun x => ?_⟩
+  rw [h2]
+  have : mem [] = fun _ => false := by funext y; simp [mem]
+  rw [this]
+
+example : (∀ op ∈ [Op.add 3 4, Op.add 10 2, Op.remove 5 6, Op.inter [(0, 4), (11, 5)]], op.valid) ∧
+    run [] [Op.add 3 4, Op.add 10 2, Op.remove 5 6, Op.inter [(0, 4), (11, 5)]] = [(3, 1), (11, 1)] := by
+  refine ⟨?_, by decide⟩
+  intro op hop
+  simp only [List.mem_cons, List.mem_nil_iff, or_false] at hop
+  rcases hop with rfl | rfl | rfl | rfl <;> simp [Op.valid, WF]
+
+/-! ## Part 2: `DataSpans` behaves like a partial map offset ↦ byte (later writes win).
+
+`DInv` is the class invariant (sorted, non-empty chunks, at least one free offset between chunks —
+so non-adjacent and non-overlapping); `byteAt s x` is the byte stored at offset `x`, if any. -/
+
+/-- `add` preserves the invariant (for any data, including empty) -/
+theorem dinv_add (s : List Chunk) (off : Nat) (data : List UInt8) (h : DInv s) : DInv (dadd s off data) :=
+  (dadd_spec off data h).1
+
+/-- `add` overwrites exactly the range `[off, off+len)` with `data` and leaves every other offset alone -/
+theorem byteAt_add (s : List Chunk) (off : Nat) (data : List UInt8) (x : Nat) (h : DInv s) :
+    byteAt (dadd s off data) x =
+      if off ≤ x ∧ x < off + data.length then data[x - off]? else byteAt s x :=
+  (dadd_spec off data h).2 x
+
+example : DInv [(0, [1, 2, 3]), (5, [9]), (8, [4, 4])] ∧
+    dadd [(0, [1, 2, 3]), (5, [9]), (8, [4, 4])] 2 [7, 7, 7, 7, 7] = [(0, [1, 2, 7, 7, 7, 7, 7]), (8, [4, 4])] ∧
+    dadd [(0, [1, 2, 3]), (5, [9]), (8, [4, 4])] 4 [6] = [(0, [1, 2, 3]), (4, [6, 9]), (8, [4, 4])] :=
+  ⟨by simp [DInv, DChain], by decide, by decide⟩
+
+/-- the code's own `assert_invariants()` never fires on a state that satisfies the invariant -/
+theorem assertOk_of_inv (s : List Chunk) (h : DInv s) : assertOk s = true :=
+  assertOk_of_chain h
+
+/-- `remove` preserves the invariant -/
+theorem dinv_remove (s : List Chunk) (a l : Nat) (h : DInv s) : DInv (dremove a l s) :=
+  (dremove_spec a l h).1
+
+/-- `remove` clears exactly the range `[a, a+l)` -/
+theorem byteAt_remove (s : List Chunk) (a l x : Nat) (h : DInv s) :
+    byteAt (dremove a l s) x = if a ≤ x ∧ x < a + l then none else byteAt s x :=
+  (dremove_spec a l h).2 x
+
+example : DInv [(0, [1, 2, 3, 4, 5]), (7, [9])] ∧
+    dremove 1 2 [(0, [1, 2, 3, 4, 5]), (7, [9])] = [(0, [1]), (3, [4, 5]), (7, [9])] ∧
+    dremove 3 5 [(0, [1, 2, 3, 4, 5]), (7, [9])] = [(0, [1, 2, 3])] :=
+  ⟨by simp [DInv, DChain], by decide, by decide⟩
+
+/-- `get` answers (something other than `None`) exactly when every offset of the non-empty range is present -/
+theorem get_isSome_iff (s : List Chunk) (a l : Nat) (h : DInv s) (hl : 0 < l) :
+    (dget a l s).isSome = true ↔ ∀ x, a ≤ x → x < a + l → (byteAt s x).isSome = true :=
+  dget_isSome_iff h hl
+
+/-- and then it returns exactly the `l` stored bytes of the range -/
+theorem get_some_bytes (s : List Chunk) (a l : Nat) (bs : List UInt8) (h : DInv s) (hg : dget a l s = some bs) :
+    bs.length = l ∧ ∀ i, i < l → byteAt s (a + i) = bs[i]? :=
+  dget_some h hg
+
+example : dget 1 3 [(0, [1, 2, 3, 4, 5]), (7, [9])] = some [2, 3, 4] ∧
+    dget 4 2 [(0, [1, 2, 3, 4, 5]), (7, [9])] = none ∧ dget 6 1 [(0, [1, 2, 3, 4, 5]), (7, [9])] = none := by decide
+
+/-- `pop` returns what `get` returns; it clears the range exactly when `get` answered, and keeps the invariant.
+(The code tests `if data:`; an empty answer only occurs for `l = 0`, where clearing is a no-op anyway.) -/
+theorem pop_spec (s : List Chunk) (a l : Nat) (h : DInv s) :
+    (dpop s a l).1 = dget a l s ∧ DInv (dpop s a l).2 ∧
+    ∀ x, byteAt (dpop s a l).2 x =
+      if (dget a l s).isSome = true ∧ a ≤ x ∧ x < a + l then none else byteAt s x :=
+  ⟨dpop_fst s a l, (dpop_spec a l h).1, (dpop_spec a l h).2⟩
+
+example : dpop [(0, [1, 2, 3, 4, 5])] 1 2 = (some [2, 3], [(0, [1]), (3, [4, 5])]) ∧
+    dpop [(0, [1, 2, 3, 4, 5])] 4 2 = (none, [(0, [1, 2, 3, 4, 5])]) := by decide
+
+/-- `len()` is the number of stored offsets (counted below any bound `N` beyond every chunk) -/
+theorem dlen_eq_card (s : List Chunk) (N : Nat) (h : DInv s) (hN : ∀ c ∈ s, c.1 + c.2.length ≤ N) :
+    dlen s = ((List.range N).filter (fun x => (byteAt s x).isSome)).length := by
+  rw [← List.countP_eq_length_filter]
+  exact dlen_eq_count h.toW hN
+
+/-- `get_spans()` is a well-formed `Spans` whose members are exactly the stored offsets -/
+theorem getSpans_mem (s : List Chunk) (x : Nat) (h : DInv s) :
+    WF (getSpans s) ∧ mem (getSpans s) x = (byteAt s x).isSome :=
+  ⟨chain_wf (getSpans_spec h x).1, (getSpans_spec h x).2⟩
+
+example : dlen [(0, [1, 2, 3]), (5, [9])] = 4 ∧ getSpans [(0, [1, 2, 3]), (5, [9])] = [(0, 3), (5, 1)] := by decide
+
+/-- Any history of `add` / `remove` / `pop` from the empty buffer: the invariant holds at the end and the
+stored bytes are the fold of the partial-map semantics (`dopSem`: later writes win) over the history.
+`get`, `len`, `get_spans` do not change the state; the theorems above apply to them at every such state. -/
+theorem dspans_history (ops : List DOp) :
+    DInv (drun [] ops) ∧ ∀ x, byteAt (drun [] ops) x = ops.foldl dopSem (fun _ => none) x := by
+  obtain ⟨h1, h2⟩ := drun_spec (s := []) ops trivial
+  refine ⟨h1, fun x => ?_⟩
+  rw [h2]
+  rfl
+
+example : drun [] [DOp.add 0 [1, 2, 3, 4], DOp.add 6 [8, 8], DOp.add 3 [5, 5, 5], DOp.pop 1 2, DOp.remove 7 1] =
+    [(0, [1]), (3, [5, 5, 5])] := by decide
 
 end Tahoe.C37
